@@ -18,6 +18,8 @@
           timedout = 1: the scenario did not finish in time (inconclusive, no verdict)
    case (14 fmt #part1 #part2 pause_ms)                         the same with a 1 s read timeout and a
         observed (nerr errkind (pkt ...) closed timedout late)   pause in the middle of a frame
+   case (15 fmt nref total seed flag)                           a complete frame with a valid checksum of
+        observed (panicked errkind consumed wanted maxcap nrefs bodylen)   total bytes, sizes only
    In a res, panicked = 2 means that the harness did not run the decoder (memory guard). *)
 From Coq Require Import Arith ZArith NArith List Bool.
 From FV Require Import Lib.Sx Lib.NList Lib.BE Lib.Crc32 C02.Model C01.RunLib.
@@ -240,6 +242,28 @@ Definition check_timeout (fmt : Z) (data : bytes) (obs : list sx) : verdict :=
   | _ => VBad
   end.
 
+(* case 15: a complete, well-formed frame (valid checksum) of [total] bytes with [nref]
+   references, sizes only.  Closed form of the model (c02_short_long_len_refused, round trip):
+   above the maximum it is refused from the header alone whatever the other header fields say;
+   within the limits it is delivered, exactly [total] bytes consumed. *)
+Definition check_whole (fmt : Z) (nref total : N) (obs : list sx) : verdict :=
+  match obs with
+  | [SInt pn; SInt kind; SInt consumed; SInt wanted; SInt maxcap; SInt nrefs; SInt bodylen] =>
+      let hs := fmt_hs fmt in
+      let refs := if Z.eqb fmt 2 then 4 * nref else 0 in
+      if fmt_max fmt <? total then
+        vjoin (bounded fmt pn (Z.to_N wanted) (Z.to_N maxcap))
+              (check_that (Z.eqb kind 3 && (Z.to_N maxcap <=? hs) && (Z.to_N wanted <=? hs)
+                           && N.eqb (Z.to_N consumed) hs) (VPropFail 6))
+      else
+        vjoin (bounded fmt pn (Z.to_N wanted) (Z.to_N maxcap))
+              (check_that (Z.eqb kind 0 && N.eqb (Z.to_N consumed) total
+                           && N.eqb (Z.to_N wanted) total
+                           && (Z.eqb fmt 1 || N.eqb (Z.to_N nrefs) nref)
+                           && N.eqb (Z.to_N bodylen) (total - hs - refs)) (VMismatch 1))
+  | _ => VBad
+  end.
+
 Definition check (c : sx) : verdict :=
   match c with
   | SList [SList [SInt 10%Z; SInt fmt; SInt cipher; SInt _; SBytes data; chunks; SInt _; SInt expect];
@@ -262,6 +286,9 @@ Definition check (c : sx) : verdict :=
       check_damaged fmt cipher frame mode (Z.to_N lo) (Z.to_N hi) obs
   | SList [SList [SInt 12%Z; SInt fmt; SBytes template; SBytes tail; SInt lo; SInt hi]; SList obs] =>
       check_sweep fmt template tail (Z.to_N lo) (Z.to_N hi) obs
+  | SList [SList [SInt 15%Z; SInt fmt; SInt nref; SInt total; SInt _; SInt _]; SList obs] =>
+      if (Z.eqb fmt 1 || Z.eqb fmt 2) && (fmt_hs fmt + (if Z.eqb fmt 2 then 4 * Z.to_N nref else 0) <=? Z.to_N total)
+      then check_whole fmt (Z.to_N nref) (Z.to_N total) obs else VBad
   | SList [SList [SInt 14%Z; SInt fmt; SBytes part1; SBytes part2; SInt _]; SList obs] =>
       if Z.eqb fmt 1 || Z.eqb fmt 2 then check_timeout fmt (part1 ++ part2) obs else VBad
   | SList [SList [SInt 13%Z; SInt fmt; SBytes data]; SList obs] =>
